@@ -100,7 +100,7 @@ package command
 // otherwise the network ParseIPNet yields for that text is inserted exactly once (no other filtering); the first
 // error aborts with that error; the container returned is the one that received the inserts.
 //@ func parseExcludeFile
-//@   props C02 C18 C01 C03 C13
+//@   props C02 C18 C01 C03 C13 C17
 //@   observe openFile, (*bufio.Scanner).Scan, (*bufio.Scanner).Text, strings.Index, strings.Trim, ParseIPNet, cidranger.NewBasicRangerEntry, Insert, Close, cidranger.NewPCTrieRanger
 //@   entry row noopen: [call openFile() as (in, e)] when e != nil && ret1 == e -> exit
 //@   entry row open:   [call openFile() as (in, e) ; call cidranger.NewPCTrieRanger() as (rg)] when e == nil -> loop 0
@@ -123,7 +123,7 @@ package command
 //
 // port range "S" or "S-E": at most two parts; each bound is ParseUint(part, 10, 16) of its OWN part
 //@ func parsePortRange
-//@   props C18 C01 C02 C03 C13
+//@   props C18 C01 C02 C03 C13 C17
 //@   observe strings.Split, strconv.ParseUint
 //@   entry row toomany: [call strings.Split(portsRange, "-") as (ps)] when len(ps) > 2 && ret0 == nil && ret1 == scan.ErrPortRange -> exit
 //@   entry row badstart: [call strings.Split(portsRange, "-") as (ps) ; call strconv.ParseUint(bind_a, 10, 16) as (v, e)] when len(ps) <= 2 && a == ps[0] && e != nil && ret1 == e -> exit
@@ -136,7 +136,7 @@ package command
 
 // comma separated list: one parsePortRange per part, results kept in order, first error aborts
 //@ func parsePortRanges
-//@   props C18 C01 C02 C03 C13
+//@   props C18 C01 C02 C03 C13 C17
 //@   observe strings.Split, parsePortRange
 //@   entry row split: [call strings.Split(portsRanges, ",") as (parts)] -> loop 0
 //@   loop 0 invariant noerr: err == nil
@@ -200,7 +200,7 @@ package command
 // interface address, and must have a 4-byte form (else errSrcIP: never an empty source); the source MAC is --srcmac
 // if given, else exactly the interface's hardware address (nil stays nil: that is what selects VPN framing)
 //@ func (*packetScanCmdOpts).getScanRange
-//@   props C17
+//@   props C17 C05
 //@   observe getInterface, To4
 //@   entry row ifaceerr: [call getInterface(o, dstSubnet) as (ifc, sip, e)] when e != nil && ret0 == nil && ret1 == e -> exit
 //@   entry row noiface:  [call getInterface(o, dstSubnet) as (ifc, sip, e)] when e == nil && ifc == nil && ret0 == nil && ret1 == errSrcInterface -> exit
@@ -214,7 +214,7 @@ package command
 // getInterface: directly attached interface (with its address on that subnet) first; else --iface with its first
 // address - unconditionally, also when that lookup fails; else the default-route interface
 //@ func (*packetScanCmdOpts).getInterface
-//@   props C17
+//@   props C17 C05
 //@   observe getLocalSubnetInterface, ip.GetInterfaceIP
 //@   opaque ip.GetDefaultInterface
 //@   entry row localerr:  [call getLocalSubnetInterface(o, dstSubnet) as (i1, a1, e1)] when dstSubnet != nil && e1 != nil && ret2 == e1 -> exit
@@ -228,7 +228,7 @@ package command
 
 // with --iface the attached-subnet lookup is restricted to that interface (and still returns that interface)
 //@ func (*packetScanCmdOpts).getLocalSubnetInterface
-//@   props C17
+//@   props C17 C05
 //@   observe ip.GetLocalSubnetInterface, ip.GetLocalSubnetInterfaceIP
 //@   entry row any:   [call ip.GetLocalSubnetInterface(dstSubnet) as (i, a, e)] when o.iface == nil && ret0 == i && ret1 == a && ret2 == e -> exit
 //@   entry row given: [call ip.GetLocalSubnetInterfaceIP(o.iface, dstSubnet) as (a, e)] when o.iface != nil && ret0 == o.iface && ret1 == a && ret2 == e -> exit
@@ -506,7 +506,7 @@ package command
 // target generator choice (C01): no address file -> subnet x ports; address file without port ranges -> file of
 // ip/port pairs; otherwise file of addresses x ports; the exclusion filter is outermost iff exclusions were given
 //@ func (*ipPortScanCmdOpts).newIPPortGenerator
-//@   props C01 C02 C13 C03 C18
+//@   props C01 C02 C13 C03 C18 C17
 //@   opaque scan.NewIPGenerator, scan.NewPortGenerator, scan.NewIPPortGenerator, scan.NewFileIPPortGenerator, scan.NewFileIPGenerator, scan.NewFilterIPRequestGenerator
 //@   entry row subnet:  [call scan.NewIPGenerator() as (ig) ; call scan.NewPortGenerator() as (pg) ; call scan.NewIPPortGenerator(ig, pg) as (g)] when len(o.ipFile) == 0 && o.excludeIPs == nil && ret == g -> exit
 //@   entry row subnetx: [call scan.NewIPGenerator() as (ig) ; call scan.NewPortGenerator() as (pg) ; call scan.NewIPPortGenerator(ig, pg) as (g) ; call scan.NewFilterIPRequestGenerator(g, o.excludeIPs) as (f)] when len(o.ipFile) == 0 && o.excludeIPs != nil && ret == f -> exit
@@ -628,7 +628,7 @@ package command
 // Raw option parsing (C15 C18 C02 C08): whenever a raw option text was given and parsing succeeds, it was parsed -
 // exactly once, from THAT text - and the parsed values are the ones stored. (Loop-free functions: "exit require".)
 //@ func (*genericScanCmdOpts).parseRawOptions
-//@   props C15 C18 C02 C08 C01 C03 C13
+//@   props C15 C18 C02 C08 C01 C03 C13 C17
 //@   opaque parsePortRanges, parsePortsFile, parseExcludeFile
 //@   exit require rate:    call parseRateLimit(bind_s) as (c, w, e) when len(pre(o.rawRateLimit)) > 0 && ret == nil then s == pre(o.rawRateLimit) && e == nil && o.rateCount == c && o.rateWindow == w
 //@   exit require exclude: call parseExcludeFile(_) as (x, e) when len(pre(o.rawExcludeFile)) > 0 && ret == nil then e == nil && o.excludeIPs == x
@@ -654,7 +654,7 @@ package command
 //@   exit forbid nosrcmac:  call net.ParseMAC(_) when len(pre(o.rawSrcMAC)) == 0
 //@   ensures plain: (len(old(o.rawRateLimit)) == 0 && len(old(o.rawExcludeFile)) == 0 && len(old(o.rawInterface)) == 0 && len(old(o.rawSrcMAC)) == 0) ==> ret == nil
 //@ func (*ipPortScanCmdOpts).parseRawOptions
-//@   props C18 C01 C02 C03 C13
+//@   props C18 C01 C02 C03 C13 C17
 //@   opaque (*ipScanCmdOpts).parseRawOptions, parsePortRanges, parsePortsFile
 //@   exit require base:  call parseRawOptions(_) as (e) when ret == nil then e == nil
 //@   exit require ports: call parsePortRanges(bind_s) as (pr, e) when len(pre(o.rawPortRanges)) > 0 && ret == nil then s == pre(o.rawPortRanges) && e == nil && len(o.portRanges) >= len(pr) && (forall k int :: 0 <= k && k < len(pr) ==> o.portRanges[k] == pr[k])
@@ -667,7 +667,7 @@ package command
 //@   exit forbid noports:   call parsePortRanges(_) when len(pre(o.rawPortRanges)) == 0
 //@   exit forbid nofile:    call parsePortsFile(_) when len(pre(o.portFile)) == 0
 //@ func (*genericScanCmdOpts).newIPPortGenerator
-//@   props C01 C02 C13 C08 C03 C18
+//@   props C01 C02 C13 C08 C03 C18 C17
 //@   opaque scan.NewIPGenerator, scan.NewPortGenerator, scan.NewIPPortGenerator, scan.NewFileIPPortGenerator, scan.NewFileIPGenerator, scan.NewFilterIPRequestGenerator
 //@   entry row subnet:  [call scan.NewIPGenerator() as (ig) ; call scan.NewPortGenerator() as (pg) ; call scan.NewIPPortGenerator(ig, pg) as (g)] when len(o.ipFile) == 0 && o.excludeIPs == nil && ret == g -> exit
 //@   entry row subnetx: [call scan.NewIPGenerator() as (ig) ; call scan.NewPortGenerator() as (pg) ; call scan.NewIPPortGenerator(ig, pg) as (g) ; call scan.NewFilterIPRequestGenerator(g, o.excludeIPs) as (f)] when len(o.ipFile) == 0 && o.excludeIPs != nil && ret == f -> exit
@@ -682,20 +682,20 @@ package command
 
 // the file openers: the file named by --file, or standard input for "-" where a list of addresses is read
 //@ func (*genericScanCmdOpts).newIPPortGenerator$2
-//@   props C01 C13 C02 C03 C18
+//@   props C01 C13 C02 C03 C18 C17
 //@   observe os.Open
 //@   entry row open: [call os.Open(o.ipFile) as (f, e)] when ret1 == e && isptr(ret0, os.File) && asptr(ret0, os.File) == f -> exit
 //@ func (*genericScanCmdOpts).newIPPortGenerator$3
-//@   props C01 C13 C02 C03 C18
+//@   props C01 C13 C02 C03 C18 C17
 //@   observe os.Open, openStdin
 //@   entry row stdin: [call openStdin() as (c, e)] when o.ipFile == "-" && ret0 == c && ret1 == e -> exit
 //@   entry row open:  [call os.Open(o.ipFile) as (f, e)] when o.ipFile != "-" && ret1 == e && isptr(ret0, os.File) && asptr(ret0, os.File) == f -> exit
 //@ func (*ipPortScanCmdOpts).newIPPortGenerator$2
-//@   props C01 C13 C02 C03 C18
+//@   props C01 C13 C02 C03 C18 C17
 //@   observe os.Open
 //@   entry row open: [call os.Open(o.ipFile) as (f, e)] when ret1 == e && isptr(ret0, os.File) && asptr(ret0, os.File) == f -> exit
 //@ func (*ipPortScanCmdOpts).newIPPortGenerator$3
-//@   props C01 C13 C02 C03 C18
+//@   props C01 C13 C02 C03 C18 C17
 //@   observe os.Open, openStdin
 //@   entry row stdin: [call openStdin() as (c, e)] when o.ipFile == "-" && ret0 == c && ret1 == e -> exit
 //@   entry row open:  [call os.Open(o.ipFile) as (f, e)] when o.ipFile != "-" && ret1 == e && isptr(ret0, os.File) && asptr(ret0, os.File) == f -> exit
@@ -714,26 +714,26 @@ package command
 
 // target of the application scans: the parsed subnet argument (nil with an address file and no argument) with the parsed port ranges
 //@ func (*genericScanCmdOpts).parseDstSubnet
-//@   props C02 C01 C03 C13 C18
+//@   props C02 C01 C03 C13 C18 C17
 //@   observe ip.ParseIPNet
 //@   entry row none:  [] when len(args) == 0 && len(o.ipFile) == 0 && ret0 == nil && ret1 == errNoDstIP -> exit
 //@   entry row file:  [] when len(args) == 0 && len(o.ipFile) != 0 && ret0 == nil && ret1 == nil -> exit
 //@   entry row parse: [call ip.ParseIPNet(pre(args[0])) as (n, e)] when len(args) != 0 && ret0 == n && ret1 == e -> exit
 //@ func (*ipScanCmdOpts).parseDstSubnet
-//@   props C02 C01 C03 C13 C18
+//@   props C02 C01 C03 C13 C18 C17
 //@   observe ip.ParseIPNet
 //@   entry row none:  [] when len(args) == 0 && len(o.ipFile) == 0 && ret0 == nil && ret1 == errNoDstIP -> exit
 //@   entry row file:  [] when len(args) == 0 && len(o.ipFile) != 0 && ret0 == nil && ret1 == nil -> exit
 //@   entry row parse: [call ip.ParseIPNet(pre(args[0])) as (n, e)] when len(args) != 0 && ret0 == n && ret1 == e -> exit
 //@ func (*genericScanCmdOpts).parseScanRange
-//@   props C02 C01 C03 C13 C18
+//@   props C02 C01 C03 C13 C18 C17
 //@   opaque (*genericScanCmdOpts).parseDstSubnet
 //@   entry row range: [call parseDstSubnet(_, args) as (n, e)] when ret1 == e && ret0 != nil && ret0.DstSubnet == n && ret0.Ports == o.portRanges -> exit
 
 // ports file: like the exclusion file - per line the text before '#', trimmed; blank lines skipped; every other
 // line parsed by parsePortRange and appended in order; the first error aborts with nothing
 //@ func parsePortsFile
-//@   props C18 C01 C02 C03 C13
+//@   props C18 C01 C02 C03 C13 C17
 //@   observe openFile, (*bufio.Scanner).Scan, (*bufio.Scanner).Text, strings.Index, strings.Trim, parsePortRange, Close
 //@   entry row noopen: [call openFile() as (in, e)] when e != nil && ret1 == e -> exit
 //@   entry row open:   [call openFile() as (in, e)] when e == nil -> loop 0
@@ -750,14 +750,14 @@ package command
 // per-command raw options: the embedded parser must have succeeded; IP flags and payloads, when given, are parsed
 // once from the given text and stored
 //@ func (*ipScanCmdOpts).parseRawOptions
-//@   props C11 C18 C01 C02 C03 C13
+//@   props C11 C18 C01 C02 C03 C13 C17
 //@   opaque (*packetScanCmdOpts).parseRawOptions
 //@   observe net.ParseMAC
 //@   exit require base:  call parseRawOptions(_) as (e) when ret == nil then e == nil
 //@   exit require gwmac: call net.ParseMAC(bind_s) as (m, e) when len(pre(o.rawGatewayMAC)) > 0 && ret == nil then s == pre(o.rawGatewayMAC) && e == nil && o.gatewayMAC == m
 //@   exit forbid nogwmac: call net.ParseMAC(_) when len(pre(o.rawGatewayMAC)) == 0
 //@ func (*icmpCmdOpts).parseRawOptions
-//@   props C05 C18 C01 C02 C03 C13
+//@   props C05 C18 C01 C02 C03 C13 C17
 //@   opaque (*ipScanCmdOpts).parseRawOptions, parseIPFlags, parsePacketPayload
 //@   exit require base:    call parseRawOptions(_) as (e) when ret == nil then e == nil
 //@   exit require ipflags: call parseIPFlags(bind_s) as (f, e) when len(pre(o.rawIPFlags)) > 0 && ret == nil then s == pre(o.rawIPFlags) && e == nil && o.ipFlags == f
@@ -765,7 +765,7 @@ package command
 //@   exit forbid noipflags: call parseIPFlags(_) when len(pre(o.rawIPFlags)) == 0
 //@   exit forbid nopayload: call parsePacketPayload(_) when len(pre(o.rawICMPPayload)) == 0
 //@ func (*udpCmdOpts).parseRawOptions
-//@   props C05 C18 C01 C02 C03 C13
+//@   props C05 C18 C01 C02 C03 C13 C17
 //@   opaque (*ipPortScanCmdOpts).parseRawOptions, parseIPFlags, parsePacketPayload
 //@   exit require base:    call parseRawOptions(_) as (e) when ret == nil then e == nil
 //@   exit require ipflags: call parseIPFlags(bind_s) as (f, e) when len(pre(o.rawIPFlags)) > 0 && ret == nil then s == pre(o.rawIPFlags) && e == nil && o.ipFlags == f
@@ -773,17 +773,17 @@ package command
 //@   exit forbid noipflags: call parseIPFlags(_) when len(pre(o.rawIPFlags)) == 0
 //@   exit forbid nopayload: call parsePacketPayload(_) when len(pre(o.rawUDPPayload)) == 0
 //@ func (*tcpFlagsCmdOpts).parseRawOptions
-//@   props C05 C18 C01 C02 C03 C13
+//@   props C05 C18 C01 C02 C03 C13 C17
 //@   opaque (*ipPortScanCmdOpts).parseRawOptions, parseTCPFlags
 //@   exit require base:  call parseRawOptions(_) as (e) when ret == nil then e == nil
 //@   exit require flags: call parseTCPFlags(bind_s) as (f, e) when ret == nil then s == pre(o.rawTCPFlags) && e == nil && o.tcpFlags == f
 //@ func (*dockerCmdOpts).parseRawOptions
-//@   props C10 C18 C01 C02 C03 C13
+//@   props C10 C18 C01 C02 C03 C13 C17
 //@   opaque (*genericScanCmdOpts).parseRawOptions
 //@   exit require base: call parseRawOptions(_) as (e) when ret == nil then e == nil
 //@   ensures proto: ret == nil ==> (o.proto == "http" || o.proto == "https")
 //@ func (*elasticCmdOpts).parseRawOptions
-//@   props C10 C18 C01 C02 C03 C13
+//@   props C10 C18 C01 C02 C03 C13 C17
 //@   opaque (*genericScanCmdOpts).parseRawOptions
 //@   exit require base: call parseRawOptions(_) as (e) when ret == nil then e == nil
 //@   ensures proto: ret == nil ==> (o.proto == "http" || o.proto == "https")
@@ -858,13 +858,13 @@ package command
 // a list on standard input is read completely, once, at the first open; every open (one per port) gets a fresh
 // reader over those same bytes; a read error is reported by every open (F02)
 //@ func newStdinOpener$1
-//@   props C01 C13 C02 C03 C18
+//@   props C01 C13 C02 C03 C18 C17
 //@   observe (*sync.Once).Do, bytes.NewReader, io.NopCloser
 //@   entry row failed: [call Do(_, bind_f)] when closureof(f, "newStdinOpener$1$1") && err != nil && ret0 == nil && ret1 == err -> exit
 //@   entry row reader: [call Do(_, bind_f) ; call bytes.NewReader(data) as (r) ; call io.NopCloser(bind_r2) as (c)]
 //@                        when closureof(f, "newStdinOpener$1$1") && err == nil && isptr(r2, bytes.Reader) && asptr(r2, bytes.Reader) == r && ret0 == c && ret1 == nil -> exit
 //@ func newStdinOpener$1$1
-//@   props C01 C13 C02 C03 C18
+//@   props C01 C13 C02 C03 C18 C17
 //@   observe io.ReadAll
 //@   entry row read: [call io.ReadAll(bind_in) as (d, e)] when isptr(in, os.File) && asptr(in, os.File) == os.Stdin && data == d && err == e -> exit
 
